@@ -892,39 +892,56 @@ def _lemma_methods():
             o.failed.append({"reason": "FSM extraction: " + "; ".join(fsm.problems)})
             self.cur = None
             return
-        m = re.match(r"^foreach\s+(\w+)\s+in\s+\(([^)]*)\)\s*(?:except\s*\(([^)]*)\))?\s*::\s*(.*)$", text, re.S)
-        if m:
-            var, lst, exc, body = m.group(1), m.group(2).strip(), m.group(3), m.group(4)
-            byname = {v: k for k, v in fsm.event_names.items()}
-            if lst == "*":
-                codes = sorted(fsm.events)
-            else:
-                codes = []
+        items = [dict()]
+        byname = {v: k for k, v in fsm.event_names.items()}
+        bystatus = {v: k for k, v in fsm.status_names.items()}
+        body = text
+        while True:
+            m = re.match(r"^foreach\s+(\w+)\s+in\s+(statuses)?\(([^)]*)\)\s*(?:except\s*\(([^)]*)\))?\s*::\s*(.*)$", body, re.S)
+            if not m:
+                break
+            var, is_status, lst, exc, body = m.group(1), m.group(2), m.group(3).strip(), m.group(4), m.group(5)
+            if is_status:
+                vals = []
                 for n in [x.strip() for x in lst.split(",") if x.strip()]:
-                    if n not in byname or byname[n] not in fsm.events:
+                    if n not in bystatus:
                         o.instances += 1
-                        o.failed.append({"reason": "event %s has no builder in ChannelEvents" % n})
+                        o.failed.append({"reason": "unknown status %s" % n})
                         continue
-                    codes.append(byname[n])
-            if exc:
-                ex = [byname[x.strip()] for x in exc.split(",") if x.strip()]
-                codes = [c for c in codes if c not in ex]
-            items = [(var, c) for c in codes]
-        else:
-            body = text
-            items = [(None, None)]
+                    vals.append(("status", n, bystatus[n]))
+            else:
+                if lst == "*":
+                    codes = sorted(fsm.events)
+                else:
+                    codes = []
+                    for n in [x.strip() for x in lst.split(",") if x.strip()]:
+                        if n not in byname or byname[n] not in fsm.events:
+                            o.instances += 1
+                            o.failed.append({"reason": "event %s has no builder in ChannelEvents" % n})
+                            continue
+                        codes.append(byname[n])
+                if exc:
+                    ex = [byname[x.strip()] for x in exc.split(",") if x.strip()]
+                    codes = [c for c in codes if c not in ex]
+                vals = [("event", fsm.event_names.get(c), c) for c in codes]
+            items = [dict(it, **{var: v}) for it in items for v in vals]
         ast = parse_expr(body)
         binders = []
         while ast[0] == "forall":
             binders += ast[1]
             ast = ast[2]
-        for (var, code) in items:
+        for binding in items:
             st = State(self)
             for k, v in fsm.st0.heap.items():
                 st.heap.setdefault(k, v)
             names = {}
-            if var:
+            ev_name = st_name = None
+            for var, (kind, nm, code) in binding.items():
                 names[var] = z3.IntVal(code)
+                if kind == "event":
+                    ev_name = nm
+                else:
+                    st_name = nm
             ctx = SpecCtx(self, st, st, names, fr_pkg=MOD + "/channels")
             for (x, T) in binders:
                 t = self.spec_type(ctx, T)
@@ -935,14 +952,16 @@ def _lemma_methods():
                 goal = to_bool(ctx.eval(ast))
             except (SpecError, Unsupported) as e:
                 o.instances += 1
-                o.unknown.append({"reason": "spec error: %s" % e, "event": fsm.event_names.get(code)})
+                o.unknown.append({"reason": "spec error: %s" % e, "event": ev_name})
                 continue
             n_before = len(o.failed)
             self.record(o, st, goal, None)
-            if len(o.failed) > n_before and var:
-                o.failed[-1]["event"] = fsm.event_names.get(code)
+            if len(o.failed) > n_before:
+                o.failed[-1]["event"] = ev_name
                 md = o.failed[-1].get("model") or {}
-                if "s.Status" in md:
+                if st_name:
+                    o.failed[-1]["status"] = st_name
+                elif "s.Status" in md:
                     o.failed[-1]["status"] = fsm.status_names.get(int(md["s.Status"]), md["s.Status"])
         self.cur = None
 
